@@ -837,6 +837,13 @@ impl PersistentStorage<AnyWorkId> for BePersistentStorage {
         let raw_file = File::open(file.clone())
             .map_err(|e| panic!("Unable to read {file:?} {e}"))
             .unwrap();
+        #[cfg(fontc_verif)]
+        return Some(fontdrasil::verif::wrap_reader(
+            id,
+            &file,
+            Box::from(BufReader::new(raw_file)),
+        ));
+        #[cfg(not(fontc_verif))]
         Some(Box::from(BufReader::new(raw_file)))
     }
 
@@ -849,6 +856,9 @@ impl PersistentStorage<AnyWorkId> for BePersistentStorage {
         let raw_file = File::create(file.clone())
             .map_err(|e| panic!("Unable to write {file:?} {e}"))
             .unwrap();
+        #[cfg(fontc_verif)]
+        return fontdrasil::verif::wrap_writer(id, &file, Box::from(BufWriter::new(raw_file)));
+        #[cfg(not(fontc_verif))]
         Box::from(BufWriter::new(raw_file))
     }
 }
